@@ -536,31 +536,38 @@ def strat_hash(draw, tier):
     alg = draw(st.sampled_from(sorted(FINALISING) + ["BLAKE2b-keyed"] + CONTINUING + XOFS))
     uad = alg in UAD | {"BLAKE2b-keyed"} and draw(st.booleans())
     if alg in XOFS:
-        methods = ["update", "update", "read", "read", "copy"]
+        methods = ["update", "update", "read", "read", "copy", "swap"]
     elif alg in MACS:
-        methods = ["update", "update", "digest", "hexdigest", "verify_ok", "verify_bad", "hexverify_ok", "copy"]
+        methods = ["update", "update", "update", "digest", "hexdigest", "verify_ok", "verify_bad", "hexverify_ok", "copy", "copy", "swap"]
     else:
-        methods = ["update", "update", "digest", "hexdigest", "copy", "new"]
+        methods = ["update", "update", "update", "digest", "hexdigest", "copy", "swap", "new"]
     n = draw(st.integers(1, 12 if tier == "quick" else 25))
     steps = [[draw(st.sampled_from(methods)), draw(st.binary(max_size=40))] for _ in range(n)]
     return {"alg": alg, "uad": uad, "steps": steps, "key": draw(st.binary(min_size=32, max_size=32))}
 
 
 def run_hash(case, rec):
+    """One *current* object plus the objects parked by copy(): after a copy the sequence continues with the clone or with the
+    original (the other one is parked), `swap` returns to a parked object, and at the end every object still alive is audited
+    against the one-shot computation over the data *it* absorbed (a clone that shares buffers with its original fails there)."""
     alg, uad, steps, key = case["alg"], case["uad"], case["steps"], case["key"]
     label = alg + ("+uad" if uad else "")
-    obj = make_h(alg, uad, key)
-    fed = []            # items accepted
-    squeezed = 0
-    finalized = False
+
+    def new_state(obj, src=None):
+        if src is None:
+            return {"obj": obj, "fed": [], "squeezed": 0, "finalized": False, "last_digest": None, "reading": False}
+        return {"obj": obj, "fed": list(src["fed"]), "squeezed": src["squeezed"], "finalized": src["finalized"], "last_digest": src["last_digest"],
+                "reading": src["reading"]}
+
+    S = new_state(make_h(alg, uad, key))
+    parked = []
     trace = []
     saw_forbidden = compared_after = False
-    last_digest = None
-    reading = False
+    copies = swaps = 0
 
-    def fresh_result(nread=None):
+    def fresh_result(st_, nread=None):
         f = make_h(alg, uad, key)
-        for x in fed:
+        for x in st_["fed"]:
             f.update(x)
         if nread is not None:
             return bytes(f.read(nread))
@@ -568,22 +575,38 @@ def run_hash(case, rec):
 
     for m, arg in steps:
         base = m.split("_")[0]
+        obj = S["obj"]
+        if base == "swap":
+            if parked:
+                i_ = len(arg) % len(parked)
+                S, parked[i_] = parked[i_], S
+                swaps += 1
+                trace.append("swap")
+            continue
         if base == "copy":
-            if not hasattr(obj, "copy") or alg.startswith(("KMAC", "TupleHash", "cSHAKE", "Turbo", "Kangaroo", "SHAKE", "Poly1305")) and not hasattr(obj, "copy"):
+            if not hasattr(obj, "copy"):
                 continue
             k, c2 = libcall(obj.copy, allowed=(TypeError, ValueError, NotImplementedError, AttributeError), bucket="sm/%s/copy" % label)
             if k == "exc":
                 continue
-            # continue with the clone: must behave as the original would
-            obj = c2
+            C = new_state(c2, S)
+            copies += 1
             trace.append("copy")
-            if finalized and not uad and alg in FINALISING | {"BLAKE2b-keyed"}:
+            if S["finalized"] and not uad and alg in FINALISING | {"BLAKE2b-keyed"}:
                 # clone of a finalised hash: the documentation does not say whether the clone is finalised too.
                 # Accept both; if update is accepted the clone simply continues from the absorbed data.
-                k, r = libcall(obj.update, b"", allowed=(TypeError,), bucket="sm/%s/update" % label)
+                k, r = libcall(c2.update, b"", allowed=(TypeError,), bucket="sm/%s/update" % label)
                 if k == "ok":
-                    finalized = False
-                    last_digest = None
+                    C["finalized"] = False
+                    C["last_digest"] = None
+            if len(parked) < 3:
+                if len(arg) % 2 == 0:
+                    parked.append(S)        # continue with the clone, the original stays alive
+                    S = C
+                else:
+                    parked.append(C)        # continue with the original, the clone stays alive
+            else:
+                S = C
             continue
         if base == "new":
             if not hasattr(obj, "new") or alg not in oracles.HASHES:
@@ -591,12 +614,13 @@ def run_hash(case, rec):
             k, c2 = libcall(obj.new, allowed=(TypeError,), bucket="sm/%s/new" % label)
             if k == "exc":
                 continue
-            obj = c2
-            fed, finalized, squeezed, last_digest, reading = [], False, 0, None, False
+            if len(parked) < 3:
+                parked.append(S)
+            S = new_state(c2)
             trace.append("new")
             continue
         if base == "update":
-            forbidden = (alg in XOFS and reading) or (alg in FINALISING | {"BLAKE2b-keyed"} and finalized and not uad)
+            forbidden = (alg in XOFS and S["reading"]) or (alg in FINALISING | {"BLAKE2b-keyed"} and S["finalized"] and not uad)
             k, r = libcall(obj.update, arg, allowed=(TypeError,), bucket="sm/%s/update" % label)
             if forbidden:
                 if k != "exc":
@@ -607,37 +631,37 @@ def run_hash(case, rec):
                 continue
             if k == "exc":
                 raise Violation("sm/%s/permitted-update-refused" % label, "update() refused: %s" % r, alg=alg, trace=trace)
-            fed.append(arg)
-            last_digest = None
+            S["fed"].append(arg)
+            S["last_digest"] = None
             trace.append("update")
             continue
         if base == "read":
             n = len(arg)
             got = bytes(obj.read(n))
-            full = fresh_result(squeezed + n)
-            if got != full[squeezed:]:
+            full = fresh_result(S, S["squeezed"] + n)
+            if got != full[S["squeezed"]:]:
                 raise Violation("sm/%s/read-differs-from-one-shot" % label, "read() after %r is not the continuation of the one-shot output" % trace, alg=alg, trace=trace)
-            squeezed += n
-            reading = True
+            S["squeezed"] += n
+            S["reading"] = True
             trace.append("read")
             if saw_forbidden:
                 compared_after = True
             continue
         if base in ("digest", "hexdigest"):
             got = bytes(obj.digest()) if base == "digest" else bytes.fromhex(obj.hexdigest())
-            exp = fresh_result()
+            exp = fresh_result(S)
             if got != exp:
                 raise Violation("sm/%s/digest-differs-from-one-shot" % label, "digest() after %r differs from one-shot" % trace, alg=alg, trace=trace)
-            if last_digest is not None and got != last_digest:
+            if S["last_digest"] is not None and got != S["last_digest"]:
                 raise Violation("sm/%s/digest-not-idempotent" % label, "digest() changed without new data", alg=alg, trace=trace)
-            last_digest = got
-            finalized = True
+            S["last_digest"] = got
+            S["finalized"] = True
             trace.append("digest")
             if saw_forbidden:
                 compared_after = True
             continue
         if base in ("verify", "hexverify"):
-            exp = fresh_result()
+            exp = fresh_result(S)
             tag = exp
             bad = m.endswith("_bad")
             if bad:
@@ -652,14 +676,29 @@ def run_hash(case, rec):
                 raise Violation("sm/%s/wrong-tag-accepted" % label, "verify accepted a wrong tag after %r" % trace, alg=alg, trace=trace)
             if not bad and k == "exc":
                 raise Violation("sm/%s/right-tag-rejected" % label, "verify rejected the right tag after %r" % trace, alg=alg, trace=trace)
-            finalized = True
+            S["finalized"] = True
             trace.append(m)
             if saw_forbidden:
                 compared_after = True
             continue
-    if compared_after or (len(trace) >= 3 and "digest" in trace[:-1]):
+    # final audit of every object that is still alive (the current one and everything parked by copy/new)
+    if parked:
+        for st_ in parked + [S]:
+            if alg in XOFS:
+                got = bytes(st_["obj"].read(8))
+                if got != fresh_result(st_, st_["squeezed"] + 8)[st_["squeezed"]:]:
+                    raise Violation("sm/%s/copy-not-independent" % label, "after %r an object's read() is not the one-shot output of the data it absorbed itself" % trace,
+                                    alg=alg, trace=trace)
+            else:
+                got = bytes(st_["obj"].digest())
+                if got != fresh_result(st_):
+                    raise Violation("sm/%s/copy-not-independent" % label, "after %r an object's digest() is not the one-shot digest of the data it absorbed itself" % trace,
+                                    alg=alg, trace=trace)
+    if compared_after or (len(trace) >= 3 and "digest" in trace[:-1]) or (copies and len(trace) >= 3):
         rec.nt(label, tuple(trace)[:12])
     rec.event("hash-sm:" + label)
+    if copies:
+        rec.event("hash-sm:with-copy" + (":swapped" if swaps else ""))
     rec.sample({"alg": label, "trace": trace})
 
 
